@@ -226,7 +226,10 @@ Module Prod.
       | _ => None
       end
     | ASeeClosedErr => if err_closed s && negb (seen_err s)
-                       then match ap s with ApDrain _ => None | _ => Some (set_app s true (seen_succ s) (sent s) (ap s)) end
+                       then match ap s with
+                            | ApDrain _ | ApRet _ => None      (* the application's Close() is reading Errors() *)
+                            | _ => Some (set_app s true (seen_succ s) (sent s) (ap s))
+                            end
                        else None
     | ASeeClosedSucc => if succ_closed s && negb (seen_succ s) then Some (set_app s (seen_err s) true (sent s) (ap s)) else None
     | ACloseSeeClosed => match ap s with
@@ -526,34 +529,28 @@ Module Prod.
     end.
 
   (* ---- observer automaton ----
-     successes + errors (those Close() returned included) never exceed the messages sent, and equal
-     them once both channels were seen closed / Close() returned; a channel is seen closed only after
-     the close call; no event on a channel after its close was seen; with Close(): no error event
-     reaches the application between call and return, the return comes after the call, and afterwards
-     Errors() is closed and delivers nothing. *)
-  Record os := { q_called : bool; q_ret : bool; q_s : bool; q_e : bool; q_n : nat (* outcomes seen *) }.
-  Definition oinit : os := {| q_called := false; q_ret := false; q_s := false; q_e := false; q_n := 0 |}.
+     a channel is seen closed only after the close call; no event on a channel after its close was seen;
+     with Close(): no error event reaches the application between call and return, the return comes after
+     the call, and Errors() is seen closed only after it.  (That every message gets exactly one outcome is
+     property C01; the harness checks the count directly.) *)
+  Record os := { q_called : bool; q_ret : bool; q_s : bool; q_e : bool }.
+  Definition oinit : os := {| q_called := false; q_ret := false; q_s := false; q_e := false |}.
   Definition ostep (c : cfg) (q : os) (o : obs) : option os :=
     match o with
     | OCall f => if q_called q || negb (f =? (if sync_close c then fClose else fAsync)) then None
-                 else Some {| q_called := true; q_ret := false; q_s := q_s q; q_e := q_e q; q_n := q_n q |}
-    | ORet 1 n => if sync_close c && q_called q && negb (q_ret q) && (q_n q + n <=? nmsg c)
-                  then Some {| q_called := true; q_ret := true; q_s := q_s q; q_e := q_e q; q_n := q_n q + n |}
+                 else Some {| q_called := true; q_ret := false; q_s := q_s q; q_e := q_e q |}
+    | ORet 1 n => if sync_close c && q_called q && negb (q_ret q)
+                  then Some {| q_called := true; q_ret := true; q_s := q_s q; q_e := q_e q |}
                   else None
-    | OEv 0 => if q_s q || (nmsg c <=? q_n q) then None
-               else Some {| q_called := q_called q; q_ret := q_ret q; q_s := q_s q; q_e := q_e q; q_n := S (q_n q) |}
-    | OEv 1 => if q_e q || (nmsg c <=? q_n q) || (sync_close c && q_called q) then None
-               else Some {| q_called := q_called q; q_ret := q_ret q; q_s := q_s q; q_e := q_e q; q_n := S (q_n q) |}
+    | OEv 0 => if q_s q then None else Some q
+    | OEv 1 => if q_e q || (sync_close c && q_called q) then None else Some q
     | OClosed 0 => if q_s q || negb (q_called q) then None
-                   else Some {| q_called := q_called q; q_ret := q_ret q; q_s := true; q_e := q_e q; q_n := q_n q |}
+                   else Some {| q_called := q_called q; q_ret := q_ret q; q_s := true; q_e := q_e q |}
     | OClosed 1 => if q_e q || negb (q_called q) || (sync_close c && negb (q_ret q)) then None
-                   else Some {| q_called := q_called q; q_ret := q_ret q; q_s := q_s q; q_e := true; q_n := q_n q |}
+                   else Some {| q_called := q_called q; q_ret := q_ret q; q_s := q_s q; q_e := true |}
     | _ => None
     end.
   Definition accepts (c : cfg) (l : list obs) : bool := oaccepts (ostep c) oinit l.
-  (* all outcomes delivered: checked by the harness at the end of a complete observation *)
-  Definition complete (c : cfg) (l : list obs) : bool :=
-    match orun (ostep c) oinit l with Some q => q_n q =? nmsg c | None => false end.
 
   Definition closing (s : st) : Prop := sp s <> SIdle.
   Definition final (s : st) : Prop :=
